@@ -56,6 +56,56 @@ def scale_derived(expr: ast.expr, f, depth: int = 0, P=None) -> bool:
     return False
 
 
+def own_pixels_only(P: Program, R: Report, rule: str) -> None:
+    """The per-region measurement objects receive the label image of the WHOLE frame (bulk computation hands over a
+    frame with every node in it).  A measurement of region L may look at that image only through `image == L` (or at its
+    shape); a reduction over the raw image - or over its bounding-box crop - counts the pixels of neighbouring labels as
+    well, and the stored value then depends on whether it came from bulk computation or from an incremental update."""
+    SHAPE_ONLY = {"ndim", "shape", "dtype", "size"}
+    REDUCE = {"sum", "count_nonzero", "nonzero", "any", "where", "argwhere", "flatnonzero", "mean", "marching_cubes", "find_contours", "bincount"}
+    n_use = 0
+    for ci in P.classes.values():
+        if not any(norm(b_).endswith("RegionProperties") for c_ in P.mro(ci.qname) for b_ in c_.node.bases):
+            continue
+        for m in ci.methods.values():
+            parents = {}
+            for x in ast.walk(m.node):
+                for ch in ast.iter_child_nodes(x):
+                    parents[id(ch)] = x
+            for x in ast.walk(m.node):
+                if not (isinstance(x, ast.Attribute) and x.attr == "_label_image" and norm(x.value) == "self"):
+                    continue
+                n_use += 1
+                # climb: Subscript crops keep the raw image; stop at the first non-subscript parent
+                cur = x
+                par = parents.get(id(cur))
+                while isinstance(par, ast.Subscript) and par.value is cur:
+                    cur, par = par, parents.get(id(par))
+                if isinstance(par, ast.Attribute) and par.attr in SHAPE_ONLY:
+                    R.ok(rule, m, x, f"{m.short}: the frame's label image is only asked for its shape", via="syntax")
+                    continue
+                if isinstance(par, ast.Compare) and len(par.ops) == 1 and isinstance(par.ops[0], ast.Eq) and any(
+                        norm(o) in ("self.label", "self._label") for o in [par.left, *par.comparators] if o is not cur):
+                    R.ok(rule, m, x, f"{m.short}: the frame's label image is looked at through `== self.label` only", via="syntax")
+                    continue
+                bad = None
+                if isinstance(par, ast.Call) and call_name(par) in REDUCE and any(a_ is cur for a_ in par.args):
+                    bad = par
+                elif isinstance(par, ast.Compare) and all(isinstance(o_, (ast.Gt, ast.NotEq)) for o_ in par.ops) and any(
+                        isinstance(o, ast.Constant) and o.value == 0 for o in par.comparators):
+                    bad = par
+                elif isinstance(par, ast.Call) and isinstance(par.func, ast.Attribute) and par.func.value is cur and par.func.attr in REDUCE | {"astype"}:
+                    bad = par
+                if bad is not None:
+                    R.fail(rule, m, x, f"{m.short}: the frame's label image is looked at through `== self.label` only",
+                           f"`{norm(bad)[:80]}` looks at every non-zero pixel of the frame (or of the bounding box): pixels of neighbouring nodes are measured as if "
+                           "they were this node's - the bulk path and the incremental path (frame masked to one node) then store different values")
+                else:
+                    R.undecided(rule, m, x, f"{m.short}: the frame's label image is looked at through `== self.label` only", f"use `{norm(par)[:60] if par is not None else ''}` not recognised")
+    if n_use == 0:
+        R.undecided(rule, "RegionProperties subclasses", "", "per-region measurements look at their own pixels only", "no use of the frame's label image found")
+
+
 def run(P: Program, R: Report, tier: str) -> None:
     R.explanation = (
         "Trigger matrix (effects of primitives x handlers of the regionprops annotator), ordering of "
@@ -150,3 +200,4 @@ def run(P: Program, R: Report, tier: str) -> None:
     fu = A.init_of(uu)
     _, res_u = A.run(fu)
     release_before_claim(R, fu, res_u, "R08.6")
+    own_pixels_only(P, R, "R08.7")
